@@ -272,4 +272,36 @@ PROPS = {
             "a history does not start with a chain call (ChainCrossingSign / EdgeOrVertexChainCrossing before any vertex was given)",
         ],
     },
+    "C15": {
+        # check shards a generator 16-way and passes n/16 as -n to every shard; the c15 generator plans about 3*(n/16) inputs
+        # (12*(n/16) in thorough tier) on top of ~850 mandatory ones and each shard emits its 1/16 of the plan.
+        # Inputs whose declared count equals a documented limit make the REAL decoder allocate ~1.2 GB (decodes are serialised
+        # machine-wide by a flock slot) and cost ~10 s in the Lean interpreter: capped at 2 per type (12 in thorough tier).
+        "translators": ["translator_c15"],
+        "generators": [("c15", 4800, 16000)],
+        "modules": ["S2.DecoderIR", "S2.Generated.DecoderIR", "S2.CellID"],
+        "rule": "valid encodings of every type and both polygon formats (built with the public API), then: truncation at every "
+                "prefix length, single / multiple bit flips, length-field substitution (0, 1, limit, limit+1, 2^31, 2^32-1, 2^32, 2^40, "
+                "2^63, 2^63+5, 2^64-1) at the known count fields and blindly at every offset as uint32 / uint64 / spliced uvarint, "
+                "random bytes, random bytes after a valid header, count=0 edge cases, four fixed inputs with NaN / Inf vertex "
+                "coordinates (known finding D21); every input is decoded by the real code in a child process (RLIMIT_AS, GOMEMLIMIT, "
+                "timeout, one retry of a timeout) and, when decoding succeeds, queried; non-trivial = every line (each is a distinct "
+                "byte string run through both the real decoder and the IR interpreter); distinct = distinct (type, bytes)",
+        "nontrivial": lambda l: True,
+        "trusted_base": ["translator_c15 (Go AST -> decoder IR); its output is tied behaviourally: the IR interpreter and the real "
+                         "decoder must agree on error-vs-value for every generated byte string",
+                         "intrinsic: facesIterator.next() is translated as `true` (decodeFaces guarantees enough faces when d.err == nil); "
+                         "pinned by the sha256 of both functions in the generated file",
+                         "opaque post-processing calls (NewShapeIndex, index.Add, initBound, initLoopProperties, initEdgesAndIndex, "
+                         "CellFromCellID, ExpandForSubregions, facePiQitoXYZ, nthDerivativeCoder) are assumed not to touch the decoder; "
+                         "their panics are visible only to the child-process half",
+                         "element sizes (Point 24, CellID 8, *Loop 8, faceRun 16, Loop 112) and the append growth charge (8 x element) "
+                         "are constants of the translator / model",
+                         "CellID.IsValid is the IR primitive cellIDValid, evaluated with S2.CellID.isValid and treated as an unknown "
+                         "boolean by the static checker",
+                         "memory cap of the model process: 32 GiB (Oracle.C15.cfg); child process: RLIMIT_AS 12 GiB, GOMEMLIMIT 8 GiB"],
+        "assumptions": ["queries on an invalid CellUnion are gated on IsValid() (documented precondition)",
+                        "known finding D21: NaN / Inf vertex coordinates are accepted by Polyline/Loop/Polygon.Decode and make the exact "
+                        "predicates panic (clause panic-nonfinite-vertex)"],
+    },
 }
